@@ -537,7 +537,7 @@ pub fn run(seed: u64, tier: &str, out: &Path, _extra: &[(String, String)]) -> st
     let mut run = Run::new("C01", "Run_C01", seed, tier, out);
     let mut rng = Rng::new(seed ^ 0xC01);
     let rt = tokio::runtime::Builder::new_current_thread().enable_all().build()?;
-    let n_cases: u64 = if run.thorough() { 1500 } else { 140 };
+    let n_cases: u64 = if run.thorough() { 1500 } else { 120 };
     let mut enc = Enc { full: HashSet::new(), full_budget: if run.thorough() { 600 } else { 40 } };
     let res: std::io::Result<()> = rt.block_on(async {
         for k in 0..n_cases {
